@@ -4,13 +4,12 @@ From Coq Require Import String List Bool.
 Require Import TT.Model.C19Config TT.Spec.C19Spec.
 
 (* library level *)
-Definition c19_save (c : config) (d : json) : json := save_doc c d.
+Definition c19_save (c : config) (d : json) : option json := save_doc c d.
 Definition c19_load (f : fs) (p : string) : lres := from_tauri_config f p.
 Definition c19_preserved (before after : json) : bool := preserved_b 40 before after.
 Definition c19_roundtrip := roundtrip_lres_b.
-Definition c19_kf_plugins_not_object := kf_plugins_not_object.
-Definition c19_kf_root_array := kf_root_array.
-Definition c19_kf_case_dropped := kf_case_dropped.
+Definition c19_lib_ok := lib_ok_b.
+Definition c19_saveable := saveable.
 Definition c19_normalise := normalise.
 
 (* command line level *)
@@ -22,14 +21,12 @@ Definition c19_generate_ok := generate_ok_b.
 Definition c19_init_ok := init_ok_b.
 Definition c19_kf_file_invalid := kf_file_invalid.
 Definition c19_kf_verbose_file_only := kf_verbose_file_only.
-Definition c19_kf_init_writes_first := kf_init_writes_first.
 Definition c19_init_target := init_target.
 Definition c19_fs_get := fs_get.
 Definition c19_norm := norm.
-Definition c19_kf_number_misread := kf_number_misread.
 
 Extraction Language OCaml.
-Extraction "tt_c19.ml" c19_save c19_load c19_preserved c19_roundtrip c19_kf_plugins_not_object
-  c19_kf_root_array c19_kf_case_dropped c19_normalise c19_generate c19_init c19_spec_eff
+Extraction "tt_c19.ml" c19_save c19_load c19_preserved c19_roundtrip c19_lib_ok
+  c19_saveable c19_normalise c19_generate c19_init c19_spec_eff
   c19_spec_invalid c19_generate_ok c19_init_ok c19_kf_file_invalid c19_kf_verbose_file_only
-  c19_kf_init_writes_first c19_init_target c19_fs_get c19_norm c19_kf_number_misread.
+  c19_init_target c19_fs_get c19_norm.
